@@ -53,7 +53,17 @@ CommandExecutor::CommandExecutor()
 signed long CommandExecutor::absoluteToInternalTime(unsigned long ms)
 {
     signed long msSigned = ms;
-    return round((msSigned - m_lastClockResetTime) / m_clockSkewCompensationFactor);
+    double result = round((msSigned - m_lastClockResetTime) / m_clockSkewCompensationFactor);
+
+    /* see internalToAbsoluteTime(): saturate instead of converting a value
+     * that does not fit */
+    if (result >= 9223372036854775807.0) {
+        return LONG_MAX;
+    } else if (result <= -9223372036854775808.0) {
+        return LONG_MIN;
+    } else {
+        return static_cast<signed long>(result);
+    }
 }
 
 void CommandExecutor::checkAndFireTriggers(unsigned long now)
@@ -262,7 +272,18 @@ EasingMode CommandExecutor::handleEasingModeByte()
 
 unsigned long CommandExecutor::internalToAbsoluteTime(long ms)
 {
-    return round(m_lastClockResetTime + ms * m_clockSkewCompensationFactor);
+    double result = round(m_lastClockResetTime + ms * m_clockSkewCompensationFactor);
+
+    /* Durations decoded from the bytecode can be arbitrarily large (or, seen as
+     * a signed value, negative); converting a double that does not fit into an
+     * unsigned long is undefined, so saturate instead */
+    if (!(result > 0)) {
+        return 0;
+    } else if (result >= 18446744073709551615.0) {
+        return ULONG_MAX;
+    } else {
+        return static_cast<unsigned long>(result);
+    }
 }
 
 uint8_t CommandExecutor::nextByte()
